@@ -258,12 +258,29 @@ def run(ctx):
         ss = [gen.sentence(rng.randrange(1, 5), arities=ar) for _ in range(rng.randrange(1, 5))]
         args.append(Argument(ss[0], ss[1:]))
     arg_lines, arg_py = [], []
+    n_rejected = 0
+    prev_text = None
+    last_bad = None
     for a in args:
         ctx.count(('argstr',) + tuple(enc_sent(s) for s in a))
+        # history: a malformed submission (the previous argument's string damaged so that it fails AFTER having
+        # declared its predicates) must not influence the next round trip (same symbol, other arity is common here)
+        if prev_text is not None and rng.random() < 0.45:
+            bad = rng.choice([prev_text + ')', prev_text + ':Fx9', prev_text[:-1] if len(prev_text) > 2 else prev_text + 'K',
+                              'K' + prev_text])
+            last_bad = bad
+            for build in (Argument.from_argstr, Argument):
+                try:
+                    build(bad)
+                except Exception:  # noqa - whatever it raises is C13's business
+                    n_rejected += 1
         if max(max_sub(s) for s in a) < 10 ** (P.INT_LIMIT or 10 ** 9):
             r = oracle_argstr(a)
             if r:
-                ctx.fail(r[0], r[1], dict(argument=[enc_sent(s) for s in a]))
+                ctx.fail(r[0] + (':after-rejected-input' if prev_text is not None else ''), r[1],
+                         dict(argument=[enc_sent(s) for s in a], submitted_before=last_bad, history_note='arguments are rebuilt in sequence in one process, '
+                              'with damaged strings submitted in between; previous string: ' + repr(prev_text)))
+        prev_text = a.argstr()
         text = a.argstr()
         arg_lines.append('argstr ' + ' | '.join(enc_sent(s) for s in a))
         arg_py.append('ok ' + P.cps(text))
@@ -289,7 +306,7 @@ def run(ctx):
             den_lines.append(f'pp standard:lim={P.INT_LIMIT} - {P.cps(text)}')
             ans, _, _ = P.py_parse(Parser('standard'), text)
             den_py.append(ans)
-    ctx.add_cov(standard_denotes_cases=n_den, argstr_cases=len(args))
+    ctx.add_cov(standard_denotes_cases=n_den, argstr_cases=len(args), argstr_damaged_submissions_between=n_rejected)
 
     # ---- parsers on the writers' output (model vs code), both notations
     pp_lines, pp_py = [], []
@@ -349,6 +366,12 @@ def replay(data) -> int:
             print(f'render collision: {w(a)!r}'); bad = 1
     elif 'argument' in d:
         ss = [dec_sent(x) for x in d['argument']]
+        if d.get('submitted_before'):
+            for build in (Argument.from_argstr, Argument):
+                try:
+                    build(d['submitted_before'])
+                except Exception:  # noqa
+                    pass
         r = oracle_argstr(Argument(ss[0], ss[1:]))
         if r:
             print(r[0], r[1]); bad = 1
